@@ -379,8 +379,8 @@ func (r *atRun) checkC17(o *episodeObs, want simdb.Snapshot, ref []stmtRes) {
 		}
 		s := strings.Join(succ, " ")
 		legal := map[string]bool{
-			"":      true, // START itself failed
-			"START": true, // branch dropped with its connection (killed before END) - judged below
+			"":                         true, // START itself failed
+			"START":                    true, // branch dropped with its connection (killed before END) - judged below
 			"START END PREPARE COMMIT": true, "START END PREPARE ROLLBACK": true,
 			"START END ROLLBACK": true, "START END PREPARE": true, "START END": true,
 		}
